@@ -236,6 +236,8 @@ def check_data(case):
             raise BaselineBroken("data-write", repr(o))
         sent += d
     # the event
+    if ev == "fatal_then_send":
+        return fatal_then_send(case, p, sender, reader, labels)
     if ev in ("close_inflight", "close_inflight_ctrl"):
         # ... or, for _ctrl, tickets / a KeyUpdate are what is in flight
         if ev == "close_inflight_ctrl" and sender == "c" and \
@@ -376,6 +378,48 @@ def check_data(case):
     raise HarnessError(ev)
 
 
+def fatal_then_send(case, p, sender, reader, labels):
+    """The peer sent a fatal alert and hung up; before reading it, the local
+    side tries to *send* a post-handshake handshake message (KeyUpdate) into
+    the dead transport: the failure must close the connection and kill the
+    session like any other fatal failure."""
+    rconn, sconn = p.conn(reader), p.conn(sender)
+    if tuple(rconn.version) != (3, 4):
+        return good(nt=False, labels=labels + ["not-applicable"])
+    desc = case.get("desc", AD.internal_error)
+    drive({sender: sconn._sendMsg(RawMsg(21, bytes([AlertLevel.fatal,
+                                                    desc])))}, p.link,
+          on_stall="leave")
+    raw = rconn.sock
+    while hasattr(raw, "socket"):
+        raw = raw.socket
+    raw.tx_fault = (raw.tx_total, "pipe")
+    outs, _ = drive({reader: rconn.send_keyupdate_request(0)}, p.link,
+                    on_stall="leave")
+    o = outs[reader]
+    fs = o.state if o.exc is None else describe_exc(o.exc)
+    labels.append("final=" + fs)
+    if o.state == "exc" and not isinstance(o.exc, (BaseTLSException,
+                                                   OSError)):
+        return bad("unrelated-exception:%s" % type(o.exc).__name__,
+                   "fatal_then_send", labels=labels)
+    if o.state != "exc":
+        return bad("send-into-dead-transport-succeeds:tls13", fs,
+                   labels=labels)
+    if not rconn.closed:
+        return bad("not-closed-after-failed-send:tls13",
+                   "send_keyupdate_request raised %s but the connection is "
+                   "still open" % fs, labels=labels)
+    sess = rconn.session
+    if sess is not None and sess.resumable:
+        return bad("resumable-after-failed-send:tls13", fs, labels=labels)
+    o3 = sc.do_write(p, reader, b"late")
+    if not (o3.state == "exc" and isinstance(o3.exc,
+                                             TLSClosedConnectionError)):
+        return bad("write-after-failed-send:tls13", repr(o3), labels=labels)
+    return good(labels=labels)
+
+
 def close_inflight(case, p, sender, reader, sent, labels):
     """``reader`` closes (closeSocket=False: it waits for the peer's
     close_notify) while ``sender``'s data records are still in flight ahead
@@ -420,7 +464,7 @@ def cases(draw, tier):
                 "event": draw(st.sampled_from(
                     ["close_notify", "warning", "fatal", "eof",
                      "eof_mid_record", "close_inflight",
-                     "close_inflight_ctrl"])),
+                     "close_inflight_ctrl", "fatal_then_send"])),
                 "reply_fails": draw(st.booleans()),
                 "nrec": draw(st.integers(0, 4)),
                 "sender": draw(st.sampled_from(["c", "s"])),
@@ -477,3 +521,7 @@ def explicit(tier, seed):
                 yield {"k": "data", "fl": fl, "event": "close_notify",
                        "nrec": nrec, "sender": sender, "closeSocket": True,
                        "ignoreAbrupt": False, "reply_fails": True}
+                if nrec == 0:
+                    yield {"k": "data", "fl": fl, "event": "fatal_then_send",
+                           "nrec": 0, "sender": sender, "closeSocket": True,
+                           "ignoreAbrupt": False, "desc": 80}
